@@ -4,7 +4,7 @@ of Props.tla:  T_<name> == [][NotReset => <name>_Step]_tvars."""
 import re, os
 root = os.path.dirname(os.path.dirname(os.path.abspath(__file__)))
 props = open(os.path.join(root, "spec", "Props.tla")).read()
-steps = re.findall(r"^(C\d+_\w+)_Step ==", props, flags=re.M)
+steps = re.findall(r"^(C\d+_\w+)_Step\s*==", props, flags=re.M)
 lines = ["T_%s == [][NotReset => %s_Step]_tvars" % (s, s) for s in steps]
 p = os.path.join(root, "spec", "TraceEco.tla")
 t = open(p).read()
